@@ -165,9 +165,19 @@ def run(cx: Cx):
             else:
                 n_clamp += 1
                 want_hi = sub(E, off)
+                from sa import terms as _T
+                n0 = len(_T.CANCEL_LOG)
                 cands = match_clamp(v)
+                cancelled = [m for m in _T.CANCEL_LOG[n0:] if any(old == y for y in m)]
                 good = [c for c in cands if c[0] == target and c[1] == ZERO and c[2] == want_hi]
-                if good:
+                if good and cancelled:
+                    # old + (hi - old): equal to hi over the reals, but in floating point the sum can land one ulp beyond (or short
+                    # of) the edge - the bound itself has to be what is stored
+                    cx.violation('R-BOUND', move.qualname, f"clamp-{ax}-stores-the-bound-itself",
+                                 f"move (saturating): {ax} is set to {v!r}, which reaches the edge as old + (edge - old); in floating point "
+                                 f"that need not equal the edge, so an overshooting move can leave the agent just outside [0, {ext}-offset]; "
+                                 f"store max(min({target!r}, {want_hi!r}), 0)", where=where, path=p.lines())
+                elif good:
                     cx.ok('R-BOUND', f"clamp {ax}: {good[0][3]} with lo=0, hi={ext}-offset => [0, {ext}-offset]", where=where,
                           function=move.qualname)
                 else:
